@@ -556,7 +556,8 @@ func ruleOPT(c *Ctx) {
 	}
 	// a jump to the old end maps to the new end
 	endOK := false
-	ast.Inspect(opt.Body, func(nd ast.Node) bool {
+	var visitIf func(nd ast.Node) bool
+	visitIf = func(nd ast.Node) bool {
 		is, ok := nd.(*ast.IfStmt)
 		if !ok {
 			return true
@@ -616,6 +617,20 @@ func ruleOPT(c *Ctx) {
 			}
 			return true
 		})
+		return true
+	}
+	ast.Inspect(opt.Body, visitIf)
+	ast.Inspect(opt.Body, func(nd ast.Node) bool {
+		// a tagless switch is read as the if / else-if chain it is
+		if sw, ok := nd.(*ast.SwitchStmt); ok {
+			if chain := switchAsIfChain(sw); chain != nil {
+				for cur := chain; cur != nil; {
+					visitIf(cur)
+					next, _ := cur.Else.(*ast.IfStmt)
+					cur = next
+				}
+			}
+		}
 		return true
 	})
 	c.check(endOK, "OPT.1/end-maps-to-end", opt, "a jump to the end of the old stream is retargeted to the end of the new stream", "the branch that retargets jumps to the function end does not map len(old instructions) to len(new instructions)")
